@@ -511,6 +511,7 @@ def write_evidence(prop, tier, seed, units, results, all_obs, infra, violations,
             'fidelity_items_checked': sum((results[n].get('g').fidelity_items if results[n].get('g') else 0) for n in units),
             'bounded': extra.get('bounded', []),
             'kani': extra.get('kani', []),
+            'kani_incomplete': extra.get('kani_incomplete', []),
             'known_findings': extra.get('known_findings', []),
             'known_finding_obligations': [{'obligation': o['id'], 'text': o.get('text')} for o in kf_obs],
             'undecided': [o['id'] for o in undecided],
